@@ -15,6 +15,7 @@ F  FlowLogGen: every Packet/Rotate sequence of depth 4 over 8 packets (exhaustiv
 import collections
 import hashlib
 import json
+import threading
 
 import vlib
 
@@ -50,6 +51,25 @@ CONSTANTS
   Depth = %d
 CHECK_DEADLOCK FALSE
 """
+
+
+def _par(jobs):
+    res = [None] * len(jobs)
+    errs = []
+
+    def go(i, f):
+        try:
+            res[i] = f()
+        except Exception as e:  # noqa
+            errs.append(e)
+    ts = [threading.Thread(target=go, args=(i, f)) for i, f in enumerate(jobs)]
+    for t in ts:
+        t.start()
+    for t in ts:
+        t.join()
+    if errs:
+        raise errs[0]
+    return res
 
 
 def shape(b):
@@ -92,13 +112,19 @@ def main():
         vlib.expect_tlc_ok(g, "FlowLogGen4")
         vlib.require(len(g.traces) == 9 ** 4, "generator did not enumerate all %d behaviours of depth 4 (%d)" % (9 ** 4, len(g.traces)))
         run.add_tlc(g, "FlowLogGen4")
-        behs = g.traces if thorough else pick(g.traces, run.seed, 700)
+        allb = sorted(g.traces, key=lambda b: json.dumps([s["act"] for s in b], sort_keys=True))   # TLC prints in worker order
+        behs = allb if thorough else pick(allb, run.seed, 700)
         depth, nsim = (200, 60) if thorough else (40, 24)
-        g2 = vlib.tlc("flowlog", "FlowLogGen", {"cfg_text": SIM_CFG % depth}, workers=4, simulate=nsim // 4, depth=depth + 5,
-                      seed=run.seed, scratch=sc, timeout=1500)
-        vlib.expect_tlc_ok(g2, "FlowLogGenSim")
-        vlib.require(len(g2.traces) >= nsim // 2, "simulation produced too few behaviours (%d)" % len(g2.traces))
-        behs += g2.traces
+        # simulation is only reproducible with one TLC worker: four single-worker runs with derived seeds
+        sims = _par([lambda i=i: vlib.tlc("flowlog", "FlowLogGen", {"cfg_text": SIM_CFG % depth}, workers=1, simulate=nsim // 4,
+                                         depth=depth + 5, seed=run.seed * 10 + i, scratch=sc, timeout=1500) for i in range(4)])
+        nsimgot = 0
+        for g2 in sims:
+            vlib.expect_tlc_ok(g2, "FlowLogGenSim")
+            run.add_tlc(g2, "FlowLogGenSim")
+            nsimgot += len(g2.traces)
+            behs += g2.traces
+        vlib.require(nsimgot >= nsim // 2, "simulation produced too few behaviours (%d)" % nsimgot)
         rots = sum(1 for b in behs for s in b if s["act"]["name"] == "Rotate")
         vlib.require(rots > 50, "too few rotations in the generated behaviours")
         summ, bad = replay_behaviours(vh, behs, run.seed, sc, "F")
